@@ -31,6 +31,7 @@ VARIABLES tid,     \* index of the trace this behaviour validates
 vars == <<tid, l, R, T, prevO, rej, fails, brs>>
 
 Line == Traces[tid][l]
+HasObs(line) == "obs" \in DOMAIN line
 
 Judge(R0, R2, T2, line, rej2) ==
   LET tab  == CoreTable(R2, line.obs, T2)
@@ -61,20 +62,23 @@ StepNew ==
      /\ R' = R2 /\ T' = {} /\ prevO' = Line.obs /\ rej' = FALSE
      /\ fails' = fails \cup Judge(R2, R2, {}, Line, FALSE)
 
+\* A line of a long history may carry no observation ("obs" absent): the reference advances, nothing is judged
+\* at that line, and the next observed line is judged against the accumulated reference.  (KF1 taints are then
+\* decided against the last observation seen, which can only explain more two-instant runs, never fewer.)
 StepAdd ==
   /\ IsAdd(Line)
   /\ LET rs   == RefStep(R, T, prevO, Line, Line.res)
          rej2 == rej \/ Line.res # "ok"
-     IN /\ fails' = fails \cup Judge(R, rs.r, rs.t, Line, rej2)
+     IN /\ fails' = IF HasObs(Line) THEN fails \cup Judge(R, rs.r, rs.t, Line, rej2) ELSE fails
         /\ IF Line.fork THEN UNCHANGED <<R, T, prevO, rej>>
-           ELSE R' = rs.r /\ T' = rs.t /\ prevO' = Line.obs /\ rej' = rej2
+           ELSE R' = rs.r /\ T' = rs.t /\ prevO' = (IF HasObs(Line) THEN Line.obs ELSE prevO) /\ rej' = rej2
 
 StepNode ==
   /\ Line.op = "add_node"
   /\ LET R2 == IF Line.res = "ok" THEN RefAddNode(R, Line.n, Line.a) ELSE R IN
-     /\ fails' = fails \cup Judge(R, R2, T, Line, rej)
+     /\ fails' = IF HasObs(Line) THEN fails \cup Judge(R, R2, T, Line, rej) ELSE fails
      /\ IF Line.fork THEN UNCHANGED <<R, T, prevO, rej>>
-        ELSE R' = R2 /\ prevO' = Line.obs /\ UNCHANGED <<T, rej>>
+        ELSE R' = R2 /\ prevO' = (IF HasObs(Line) THEN Line.obs ELSE prevO) /\ UNCHANGED <<T, rej>>
 
 \* node attribute setters (update_node_attr, update_node_attr_from, dn.set_node_attributes)
 StepSetAttr ==
@@ -90,9 +94,9 @@ StepClear ==
                ELSE IF Line.op = "clear" THEN EmptyRef(R.dir, R.rem)
                ELSE [EmptyRef(R.dir, R.rem) EXCEPT !.nodes = R.nodes, !.maybe = R.maybe, !.attr = R.attr]
          T2 == IF Line.res = "ok" THEN {} ELSE T
-     IN /\ fails' = fails \cup Judge(R, R2, T2, Line, rej)
+     IN /\ fails' = IF HasObs(Line) THEN fails \cup Judge(R, R2, T2, Line, rej) ELSE fails
         /\ IF Line.fork THEN UNCHANGED <<R, T, prevO, rej>>
-           ELSE R' = R2 /\ T' = T2 /\ prevO' = Line.obs /\ UNCHANGED rej
+           ELSE R' = R2 /\ T' = T2 /\ prevO' = (IF HasObs(Line) THEN Line.obs ELSE prevO) /\ UNCHANGED rej
 
 StepObserve ==
   /\ Line.op = "observe"
